@@ -604,3 +604,98 @@ def run_inverse(ctx: Ctx) -> None:
                     return True, ""
                 _guard(ctx, "T67.inverse-velocity", f"{cls}:{kind}:link={link}:upd={upd}:{via}", fInv,
                        f"class={cls} params={kind} link={link} update_buffers={upd} via={via}", thv)
+
+
+# ------------------------------------------------------------------------------------------------ GenericSpatialTransform (C06, C07)
+def _generic(env, transform: str, affine_model: str = "TRS", rotation_model: str = "ZXZ", params=False, spacing: int = 1):
+    prog = env.ctx.prog
+    G = "deepali.spatial.generic"
+    cfg = Obj(prog.cls(G, "TransformConfig"))
+    cfg.attrs.update({"transform": transform, "affine_model": affine_model, "rotation_model": rotation_model,
+                      "control_point_spacing": spacing, "scaling_and_squaring_steps": 1, "flip_grid_coords": False})
+    return env.it.new(prog.cls(G, "GenericSpatialTransform"), env.grid, params=params, config=cfg)
+
+
+def run_generic(ctx: Ctx, inverse: bool = False) -> None:
+    prog = ctx.prog
+    G = "deepali.spatial.generic"
+    fI = prog.func(G, "GenericSpatialTransform.__init__")
+    ctx.fn(fI)
+    letters = {"T": "Translation", "R": "EulerRotation", "S": "AnisotropicScaling", "K": "Shearing", "Q": "QuaternionRotation",
+               "A": "HomogeneousTransform"}
+    if not inverse:
+        ctx.rule("T67.generic", "GenericSpatialTransform(config): the affine model string in matrix notation ('TRS' = T R S, rightmost "
+                                "factor applied first) or composition notation ('T o R o S') lists the elementary transforms so that "
+                                "tensor() is exactly that matrix product of the members' matrices; 'Affine o X' applies the non-rigid "
+                                "component X first and 'X o Affine' applies it last; freshly constructed it is the identity; the rotation "
+                                "order of the config reaches the EulerRotation")
+    else:
+        ctx.rule("T67.generic-inverse", "GenericSpatialTransform.inverse() of an affine configuration composes with the transform to the identity "
+                                        "(both orders) and reverses the member order")
+    models = [("TRS", 3), ("T o R o S", 3), ("TRS", 2), ("SRT", 3), ("TRKS", 2), ("TQ", 3), ("A", 2), ("RT", 3)]
+    for am, D in models:
+        def th(am=am, D=D):
+            env = LEnv(ctx, D, symbolic_grid=False)
+            it = env.it
+            t = _generic(env, "Affine", am, "XZX" if D == 3 else "ZXZ")
+            keys = [k for k in am.replace(" o ", "")]
+            members = list(it.method(t, "named_transforms"))
+            got_cls = [m.cls.name for _, m in members]
+            want_cls = [letters[k] for k in reversed(keys)]
+            if got_cls != want_cls:
+                return False, f"affine_model={am!r}: members are applied in the order {got_cls}, the model string says {want_cls}"
+            if not inverse:
+                M0 = as_h(it.method(t, "tensor")[0])
+                if not teq(M0, identity_h(D)):
+                    return False, f"GenericSpatialTransform(affine_model={am!r}) is not the identity after construction"
+            env.set_params(t)
+            mats = {}
+            for _, m in members:
+                mats[m.cls.name] = as_h(it.method(m, "tensor")[0])
+                if m.cls.name == "EulerRotation" and D == 3:
+                    order = it.getattr(m, "order")
+                    if str(order).upper().replace("R", "").replace(" O ", "").replace(" ", "") != "XZX":
+                        return False, f"config.rotation_model='XZX' did not reach the EulerRotation (order={order!r})"
+            want = identity_h(D)
+            for k in reversed(keys):  # rightmost factor first
+                want = compose(mats[letters[k]], want)
+            M = as_h(it.method(t, "tensor")[0])
+            if not teq(M, want):
+                return False, f"affine_model={am!r}: tensor() is not the matrix product {' '.join(keys)} of the members"
+            if inverse:
+                inv = it.method(t, "inverse")
+                it.method(inv, "update")
+                Mi = as_h(it.method(inv, "tensor")[0])
+                if not teq(compose(Mi, M), identity_h(D)) or not teq(compose(M, Mi), identity_h(D)):
+                    return False, f"affine_model={am!r}: inverse().tensor() composed with tensor() is not the identity"
+                if [m.cls.name for _, m in it.method(inv, "named_transforms")] != list(reversed(got_cls)):
+                    return False, "inverse() does not reverse the member order"
+            return True, ""
+        _guard(ctx, "T67.generic-inverse" if inverse else "T67.generic", f"{am}:D={D}", fI, f"affine_model={am!r} D={D}", th)
+    if inverse:
+        return
+    from .t6_transforms import TEnv
+    for model, first in (("Affine o SVF", "nonrigid"), ("SVF o Affine", "affine"), ("Affine o DDF", "nonrigid"), ("FFD o Affine", "affine"),
+                         ("DDF", "nonrigid"), ("Affine o SVFFD", "nonrigid")):
+        def thn(model=model, first=first):
+            env = TEnv(ctx, 2)
+            it = env.it
+            t = _generic(env, model, "TRS", "ZXZ", spacing=2 if "FFD" in model else 1)
+            names = [k for k, _ in it.method(t, "named_transforms")]
+            if "nonrigid" not in names:
+                return False, f"transform={model!r}: no non-rigid component was created ({names})"
+            pos = names.index("nonrigid")
+            if "Affine" in model:
+                if (first == "nonrigid") != (pos == 0) or (first == "affine") != (pos == len(names) - 1):
+                    return False, f"transform={model!r}: members are applied in the order {names}"
+            want_cls = {"SVF": "StationaryVelocityFieldTransform", "DDF": "DisplacementFieldTransform", "FFD": "FreeFormDeformation",
+                        "SVFFD": "StationaryVelocityFreeFormDeformation"}[[c for c in model.split(" o ") if c != "Affine"][0]]
+            nr = dict(it.method(t, "named_transforms"))["nonrigid"]
+            if nr.cls.name != want_cls:
+                return False, f"transform={model!r}: non-rigid component is a {nr.cls.name}"
+            x = STensor.symbols("x", [1, 2, 2])
+            y = it.call_value(t, [x], {})
+            if not teq(y, x):
+                return False, f"GenericSpatialTransform(transform={model!r}) is not the identity after construction"
+            return True, ""
+        _guard(ctx, "T67.generic", f"{model}", fI, f"transform={model!r}", thn)
